@@ -722,6 +722,9 @@ def check(facts, rep, tier, cfg):
                     from_recv = g is not None and g.kind == "discr" and any(x.kind == "call" and (is_recv14({"name": x[6], "path": x[1]}) or is_recv14({"name": x[6], "path": x[2]})) for x in walk(g.pred))
                     if from_recv and all(v in ("None", "Err", "Break", None) for v in vals):
                         continue
+                    from_parse = g is not None and g.kind == "discr" and any(x.kind == "call" and x[6] in ("parse_udp_relay_header",) for x in walk(g.pred))
+                    if from_parse and all(v not in ("Ok", "Some", "Continue") for v in vals):
+                        continue        # a datagram that does not parse (e.g. a fragment) is dropped: the failing outcome of the parse step
                     if g is not None and g.kind == "discr" and (g.adt or "").endswith("Poll"):
                         continue
                     bad17 = gb
